@@ -32,7 +32,9 @@ CHECKS["C01"] = {
     "assumptions": ["reference decoder is correct", "a configuration refused by a setter and a failing zck_close are outside the property's premise"],
     "runs": [
         {"bin": "asan/C01", "cases": P(260, 4000), "procs": P(8, 16), "size": P(60, 100), "cpu_limit": 120, "shrink_budget": 150},
+        {"kind": "script", "bin": "props/C01_tools.py", "cases": P(70, 1500), "procs": P(6, 16)},
     ],
+    "extra_targets": ["asan/tools/zck", "asan/tools/unzck", "asan/tools/zck_read_header"],
 }
 
 CHECKS["C06"] = {
